@@ -86,6 +86,8 @@ func main() {
 		set, in = streams.C16(*seed, *n)
 	case "c17":
 		set, in = streams.C17(*seed, *n)
+	case "c17e2e":
+		set, in = streams.Deploy(*seed, *n)
 	case "c18":
 		set, in = streams.C18(*seed, *n)
 	case "c20":
